@@ -71,6 +71,19 @@ def replay_scores(data):
                     if k in js and x is not None and js[k] != x:
                         bad.append((so, mi, k, js[k]))
         return not bad, "CVSS%s(%r): scores() %r; as_json scores that differ (sort, minimal, key, value): %r" % (ver, s, sc, bad)
+    if r.get("volume"):
+        import random as _random
+        rr = _random.Random(1)
+        im = core.impl()
+        sp = core.run_driver(["S\tscore\t%s\t%s" % (ver, enc(s))])[0]
+        first = core.impl_construct(ver, "s", s)
+        for _ in range(int(r["volume"]) + 10):
+            try:
+                im.cls[ver](core.rand_vector(ver, rr, p_absent=0.35)).scores()
+            except Exception:  # noqa
+                pass
+        again = core.impl_construct(ver, "s", s)
+        return first == sp and again == sp, "CVSS%s(%r): specification %r, first %r, after %d other constructions %r" % (ver, s, sp, first, r["volume"], again)
     if r.get("repeat") or r.get("threads"):
         # repeated / concurrent construction of one string: every result must equal the specification's
         import threading
@@ -140,6 +153,28 @@ def extra_probes(ctx, ver, strings, label):
                     if k in js and x is not None and js[k] != x:
                         ctx.violation("v%s:json-%s-differs-from-scores" % (ver, k), "the %s that as_json() reports differs from scores()" % k,
                                       s, x, {"sort": so, "minimal": mi, k: js[k]}, replay={"op": "json-scores", "ver": ver, "s": s})
+    # VOLUME: a few early vectors, then very many DISTINCT other constructions in the same process, then the early ones again
+    # (bounded caches wrap at capacities like 2^8 .. 2^16; the thorough tier goes beyond 2^20)
+    early = sample[:: max(1, len(sample) // 300)][:300]
+    e_ref = [core.impl_construct(ver, "s", s) for s in early]
+    V = VOCAB[ver]
+    n_vol = ctx.n(70000, 1150000) if ctx.scale == 1 else 70000
+    cls = im.cls[ver]
+    seen_n = 0
+    for i in range(n_vol):
+        try:
+            cls(core.rand_vector(ver, rng, p_absent=0.35)).scores()
+            seen_n += 1
+        except Exception:  # noqa
+            pass
+        if i in (300, 5000, 70000 - 1, n_vol - 1) or (i & (i + 1)) == 0 and i > 1000:
+            for s, b in zip(early[:: (1 if i >= 70000 - 1 else 6)], e_ref[:: (1 if i >= 70000 - 1 else 6)]):
+                g = core.impl_construct(ver, "s", s)
+                if g != b:
+                    ctx.violation("v%s:score-changes-after-many-other-constructions" % ver, "after %d other constructions in the process a vector scores differently" % (i + 1),
+                                  s, b, g, replay={"op": "scores", "ver": ver, "s": s, "volume": i + 1})
+                    return
+    ctx.count(seen_n)
     small = sample[:: max(1, len(sample) // ctx.n(700, 6000))]
     conc.warm_threads(ctx, small, lambda s: core.impl_construct(ver, "s", s), "v%s" % ver,
                       replay_of=lambda s: {"op": "scores", "ver": ver, "s": s, "threads": 4})
